@@ -673,6 +673,100 @@ def D_depth(s, ctx):
            "callers enter with a constant" % len(scc)
 
 
+def _param_chain_ok(ctx, b, l):
+    """Every caller chain hands, for the `&mut` parameter `l` of `b`, a local that starts from a constant and is only
+    incremented."""
+    visiting = set()
+
+    def chain_ok(body, argl, depth):
+        if (body.name, argl) in visiting:
+            return True     # a recursive hand-down adds no new source
+        if depth > 8:
+            return False
+        visiting.add((body.name, argl))
+        callers = [(ob, c) for n, ob in ctx.lib.bodies.items() for c in ob.calls if (c.name or "") == body.name]
+        if not callers:
+            return False
+        for ob, c in callers:
+            if len(c.args) < argl:
+                return False
+            pr = Prov(ob, LOOKX)
+            at = [a for a in pr.origins(c.args[argl - 1]) if a[0] != "outparam"]
+            for a in at:
+                if a[0] == "const":
+                    continue
+                if a[0] == "op" and a[1].startswith("binop:Add"):
+                    continue
+                if a[0] == "arg" and not [p for p in a[2] if p != "deref"]:
+                    if not chain_ok(ob, a[1], depth + 1):
+                        return False
+                    continue
+                return False
+        return True
+    return chain_ok(b, l, 0)
+
+
+def D_checked_counter(s, ctx):
+    """`c = c.checked_add(1).expect(..)` / `.unwrap()` on a 64-bit counter that starts from a constant."""
+    if s.kind not in ("call:expect", "call:unwrap") or s.call is None or "Option" not in (s.call.full or ""):
+        return None
+    b = s.body
+    c = s.call
+    key = op_place_key(c.args[0])
+    if key is None or key[1]:
+        return None
+    adds = [x for x in b.calls if x.dest["l"] == key[0] and not x.dest["p"]]
+    if len(adds) != 1 or not (adds[0].name or "").startswith("core::num::<impl ") or \
+            (adds[0].name or "").rsplit("::", 1)[-1] != "checked_add":
+        return None
+    add = adds[0]
+    if (add.name or "").split("<impl ")[1].split(">")[0] not in ("u64", "usize", "i64"):
+        return None
+    if len(add.args) != 2 or add.args[1].get("k") != "const" or not (0 < add.args[1].get("int", 0) <= 16):
+        return None
+    src = op_place_key(add.args[0])
+    if src is None:
+        return None
+    if not src[1]:
+        d = def_of(b, src[0])
+        if d and d[0] == "rv" and d[3]["k"] == "use" and op_place_key(d[3]["op"]):
+            src = op_place_key(d[3]["op"])
+    # where the unwrapped sum goes
+    dest = (c.dest["l"], tuple(c.dest["p"]))
+    if not dest[1]:
+        for st in (b.stmts(c.target) if c.target is not None else []):
+            if st["k"] == "assign" and st["rv"]["k"] == "use" and op_place_key(st["rv"]["op"]) == (dest[0], ()):
+                dest = (st["place"]["l"], tuple(st["place"]["p"]))
+                break
+    if src != dest:
+        return None
+    dl, dp = dest
+    if not dp:
+        others = [rvx for bb, idx, place, rvx, _ in b.assignments() if place["l"] == dl and not place["p"]]
+        others = [rvx for rvx in others if not (rvx["k"] == "use" and op_place_key(rvx["op"]) == (c.dest["l"], ()))]
+        if any(not (rvx["k"] == "use" and rvx["op"].get("k") == "const") for rvx in others):
+            return None
+        if any(cc.dest["l"] == dl and cc is not c for cc in b.calls) or 1 <= dl <= b.arg_count:
+            return None
+        return "local 64-bit counter initialised by a constant, only ever advanced by checked_add(%d): the None " \
+               "case needs 2^63 steps" % add.args[1]["int"]
+    if dp == ("deref",) and 1 <= dl <= b.arg_count and b.local_ty(dl) in ("&mut u64", "&mut usize") \
+            and _param_chain_ok(ctx, b, dl):
+        return "64-bit counter behind a &mut parameter, advanced by checked_add(%d); every caller chain passes a " \
+               "local that starts from a constant: the None case needs 2^63 steps" % add.args[1]["int"]
+    return None
+
+
+def D_radix(s, ctx):
+    """char::to_digit / from_digit / is_digit with a constant radix of at most 36."""
+    if s.kind not in ("call:to_digit", "call:from_digit", "call:is_digit") or s.call is None or len(s.call.args) < 2:
+        return None
+    o = s.call.args[1]
+    if o.get("k") == "const" and 2 <= o.get("int", 99) <= 36:
+        return "constant radix %d (the call panics only for a radix above 36)" % o["int"]
+    return None
+
+
 def D_param_counter(s, ctx):
     """`*p += 1` through a `&mut u64/usize` parameter: every caller chain ends in a local initialised by a constant."""
     if s.kind != "assert:overflow:Add":
@@ -701,34 +795,7 @@ def D_param_counter(s, ctx):
     if not stored:
         return None
 
-    visiting = set()
-
-    def chain_ok(body, argl, depth):
-        if (body.name, argl) in visiting:
-            return True     # a recursive hand-down adds no new source
-        if depth > 8:
-            return False
-        visiting.add((body.name, argl))
-        callers = [(ob, c) for n, ob in ctx.lib.bodies.items() for c in ob.calls if (c.name or "") == body.name]
-        if not callers:
-            return False
-        for ob, c in callers:
-            if len(c.args) < argl:
-                return False
-            pr = Prov(ob, LOOKX)
-            at = [a for a in pr.origins(c.args[argl - 1]) if a[0] != "outparam"]
-            for a in at:
-                if a[0] == "const":
-                    continue
-                if a[0] == "op" and a[1].startswith("binop:Add"):
-                    continue
-                if a[0] == "arg" and not [p for p in a[2] if p != "deref"]:
-                    if not chain_ok(ob, a[1], depth + 1):
-                        return False
-                    continue
-                return False
-        return True
-    if chain_ok(b, l, 0):
+    if _param_chain_ok(ctx, b, l):
         return "64-bit counter behind a &mut parameter: every caller chain passes a local that starts from a " \
                "constant and is only incremented: needs 2^63 steps"
     return None
@@ -1066,9 +1133,39 @@ def D_capacity(s, ctx):
                 return "a parameter; every caller passes: %s" % reasons[0]
     sized = ("::len", "::capacity", "::count", "::min")
 
-    def is_size_call(a):
+    def is_size_call(a, depth=0):
         n = (b.call_at[a[1]].name or "")
-        return any(n.endswith(x) for x in sized)
+        if any(n.endswith(x) for x in sized):
+            return True
+        if (b.call_at[a[1]].callee or "") == "std::iter::Iterator::size_hint":
+            # the lower bound of an iterator that is finite (by its type, or a generic parameter every caller
+            # instantiates with a finite collection) is at most the number of elements it will yield
+            from rules import progress_rules as _PG
+            o = b.call_at[a[1]].args[0]
+            ty = ((o.get("place") or {}).get("ty") or "").replace("&mut ", "").replace("&", "").strip()
+            if _PG.finite_iterator(ty):
+                return True
+            t2 = "<%s as std::iter::IntoIterator>::IntoIter" % ty if re.match(r"^\w+$", ty) else ty
+            return _PG._generic_param_finite(ctx.lib, b.name, t2)
+        # len().saturating_add(1) and friends: integer arithmetic on a size and constants
+        if re.match(r"^(core|std)::num::<impl ", n) and n.rsplit("::", 1)[-1] in (
+                "saturating_add", "saturating_sub", "wrapping_add", "wrapping_sub", "max", "saturating_mul") \
+                and depth < 3:
+            seen_size = False
+            for o in b.call_at[a[1]].args:
+                if o.get("k") == "const":
+                    if not (0 <= o.get("int", 1 << 40) <= 1 << 20):
+                        return False
+                    continue
+                for t in pr.origins(o):
+                    if t[0] in ("via", "op", "const"):
+                        continue
+                    if t[0] == "call" and is_size_call(t, depth + 1):
+                        seen_size = True
+                    else:
+                        return False
+            return seen_size
+        return False
     core = [a for a in at if a[0] in ("arg", "call", "local", "agg", "unknown")]
     ops = [a for a in at if a[0] == "op"]
     mins = [a for a in at if a[0] == "via" and str(a[1]).endswith("::min")]
@@ -1190,7 +1287,15 @@ def D_div_zero_guard(s, ctx):
 
 DISCHARGERS = [D_ubcheck, D_counter, D_param_counter, D_depth, D_interval, D_len_plus, D_find_plus, D_sub_guard, D_sub_nonempty, D_countdown,
                D_caller_nonzero, D_byte_domain, D_constant, D_index_find, D_unwrap_some, D_borrow, D_const_index,
-               D_capacity, D_cache_size, D_full_range, D_fmt, D_div_zero_guard]
+               D_capacity, D_cache_size, D_full_range, D_fmt, D_div_zero_guard, D_checked_counter, D_radix]
+
+
+def _debug_assertion(s):
+    loc = (s.term or {}).get("loc") if s.term else None
+    if loc is None and s.call is not None:
+        loc = s.call.t.get("loc")
+    exp = (loc or {}).get("exp", [])
+    return any(e in ("macro:debug_assert", "macro:debug_assert_eq", "macro:debug_assert_ne") for e in exp)
 
 
 def census(rep, ctx, rid="C05-PANIC-CENSUS", crates=("lib", "bin")):
@@ -1231,6 +1336,13 @@ def census(rep, ctx, rid="C05-PANIC-CENSUS", crates=("lib", "bin")):
             if reason:
                 r.ok(key, "discharged[%s]: %s" % (how, reason), s.where)
                 by_class[how] = by_class.get(how, 0) + 1
+            elif _debug_assertion(s):
+                # an assertion the author wrote with debug_assert!: compiled only under cfg(debug_assertions), it
+                # states an invariant the author believes; whether it can fire is a value statement this census does
+                # not decide (DESIGN section 8) - counted, not reported
+                r.ok(key, "stated[debug_assert]: an author-written debug assertion (absent from release builds); "
+                     "its condition is not decided here", s.where, nontrivial=False)
+                by_class["stated:debug_assert"] = by_class.get("stated:debug_assert", 0) + 1
             elif key in tab:
                 t = tab[key]
                 r.ok(key, "tabled[%s]: %s" % (t.get("tag", "?"), t.get("reason", "")), s.where, nontrivial=False)
